@@ -79,6 +79,9 @@ DOCS = (
 KERN_BAD = ('4zz', '4c§', '%%', '4c 4', 'c4z', '', '4d ', ' 4e', '4rP', '8r 8rK', 'rMT', '4c\u20ac', '4\x7fc')     # '' = a cell truncated to nothing (two adjacent TABs)     # malformed in a **kern spine (raise on a fresh importer on the pinned tree)
 
 
+ALWAYS_BAD = ('4c\u20ac', '4\x7fc')       # characters that are not part of the kern alphabet at all: malformed whatever the current parser says
+
+
 @native
 def _data_cells(di):
     rows = DOCS[di]
@@ -124,7 +127,7 @@ def _b_body(di, mask, bad):
             txt = KERN_BAD[(bad + k) % len(KERN_BAD)] if bad < len(KERN_BAD) else KERN_BAD[bad - len(KERN_BAD)]
             if txt == '' and len(rows[r]) == 1:
                 continue                   # an empty cell on a one-column line is a blank line, not a cell
-            if txt != '' and _fresh_outcome(txt)[0] != 'raises':
+            if txt != '' and txt not in ALWAYS_BAD and _fresh_outcome(txt)[0] != 'raises':
                 continue                   # the current parser accepts it: not a malformed cell for this run
             rows[r][c] = txt
             damaged.append((r, c, txt))
